@@ -74,6 +74,10 @@ pub fn alphabet(prog: &Prog) -> Vec<Action> {
         Action::of(Cmd::PrintMem(Loc::Abs(0xFFFF))),
         Action::of(Cmd::Registers),
         Action::of(Cmd::Assembly(Some(Loc::Abs(target)))),
+        Action::of(Cmd::Assembly(None)),
+        // the word after the last statement (where the loader puts its implicit HALT) and beyond
+        Action::of(Cmd::Assembly(Some(Loc::Abs(first + prog.image.words.len() as u16)))),
+        Action::of(Cmd::PrintMem(Loc::Abs(first + prog.image.words.len() as u16))),
         Action::of(Cmd::Echo("hello world".into())),
         Action::of(Cmd::Help),
     ]
@@ -224,7 +228,7 @@ pub fn run(ctx: &Ctx) -> i32 {
         ctx,
         acc,
         Level { category: "model_checking", bfs: Some((stats.states, stats.transitions, stats.transitions * if thorough { 4 } else { 3 }, stats.max_depth)) },
-        "explicit-state BFS over histories of non-mutating commands (step, step into {1,3}, step out, continue, break add/remove absolute and ^1, break list, print register / ^ / xFFFF, registers, assembly, echo, help) on 11 programs (loop, branches, nested JSR/RET, recursive CALL/RETS, HALT in the middle, JSRR + self-branch, self-modifying with output, `.break` in the source with output, running off the end, ending in an exception, executing an unknown trap). Every transition runs history+`quit` and history+end-of-input (thorough: also in non-minimal mode) on the real debugger and compares how the run ends, the final registers/PC/CC/all memory and the program output with the same image run without a debugger; states deduplicated on the paused product digest. Plus every history up to depth 2 (quick, last level stride 3) / 3 through the real binary: exit status and stdout of `lace debug --minimal --command` vs `lace run --minimal`. non-trivial = agreeing transitions / CLI histories",
+        "explicit-state BFS over histories of non-mutating commands (step, step into {1,3}, step out, continue, break add/remove absolute and ^1, break list, print register / ^ / xFFFF, registers, assembly, echo, help) on 14 programs (loop, leaving user space through a bare RET / a branch below the origin / a jump to xFFFF, branches, nested JSR/RET, recursive CALL/RETS, HALT in the middle, JSRR + self-branch, self-modifying with output, `.break` in the source with output, running off the end, ending in an exception, executing an unknown trap). Every transition runs history+`quit` and history+end-of-input (thorough: also in non-minimal mode) on the real debugger and compares how the run ends, the final registers/PC/CC/all memory and the program output with the same image run without a debugger; states deduplicated on the paused product digest. Plus every history up to depth 2 (quick, last level stride 3) / 3 through the real binary: exit status and stdout of `lace debug --minimal --command` vs `lace run --minimal`. non-trivial = agreeing transitions / CLI histories",
         !stats.capped,
         &["program-ends-normally", "program-ends-in-error-exit", "program-prints", "cli-status-0", "cli-status-nonzero"],
         &["differential oracle: the real VM without debugger", "HALT's own banner is printed with println! and is compared through the CLI part only"],
